@@ -73,12 +73,14 @@ CONSTANTS
   MaxBlocks,       \* longest stream
   Cfgs,            \* set of configurations [mixed, errmis, skipver, zero]: NgReaderOptions + which read call
   CutDeltas,       \* truncation offsets explored besides "no cut": for every block b, Off(b) (boundary) and Off(b) + d,
-                   \* End(b) - d for d in CutDeltas; {-1} = every offset
+                   \* End(b) - d for d in CutDeltas; {-1} = every offset, {-2} = no truncation at all
   ReadStep,        \* ngReadStep: 65536 in the code
   CheckOptLen,     \* TRUE: option values are length-checked and unsupported resolutions rejected (today); FALSE: before a6be975
   ZeroLenResets,   \* TRUE: a zero-length option has an empty value (today); FALSE: it keeps the previous value (before 6e4acd8)
   CheckPktLen,     \* TRUE: capture / secrets lengths are validated against block and length (today); FALSE: before bac4e1f
   Script,          \* <<>>: every stream within the bounds; otherwise the one stream to run
+  FullOnly,        \* TRUE: the reader is started on streams of MaxBlocks blocks only (shorter ones are another plan's)
+  RandomStart,     \* TRUE (simulation plans): ONE configuration and truncation per stream, drawn at random, instead of all
   ExportMod, ExportRem,
   ExportSig
 
@@ -531,6 +533,7 @@ NewReader ==
 (* the machine: choose a stream, a configuration and a truncation; open; read until the first error *)
 CutsOf(X, n) ==
    IF CutDeltas = {-1} THEN 0..n
+     ELSE IF CutDeltas = {-2} THEN {n}
      ELSE {n} \cup (UNION {{X[i][2]} \cup {X[i][2] + d : d \in CutDeltas} \cup {X[i][2] + X[i][3] - d : d \in CutDeltas} : i \in 1..Len(X)} \cap (0..n))
 
 \* the final observation: what the harness reads off the reader when the run is over
@@ -545,21 +548,23 @@ EndEvent(kind) == [op |-> "end", kind |-> kind]
 Init == /\ stream = <<>> /\ conf = [mixed |-> FALSE, errmis |-> FALSE, skipver |-> FALSE, zero |-> FALSE]
         /\ cut = 0 /\ img = <<>> /\ full = <<>> /\ ext = <<>> /\ rd = NewRd /\ phase = "gen" /\ pred = <<>>
 
-Scripted(b) == Script = <<>> \/ (Len(stream) < Len(Script) /\ Script[Len(stream) + 1] = b)
-AddBlock == /\ phase = "gen" /\ Len(stream) < MaxBlocks
-            /\ \E b \in (IF stream = <<>> THEN Heads ELSE Alphabet) : Scripted(b) /\ stream' = Append(stream, b)
+AddBlock == /\ phase = "gen" /\ Len(stream) < (IF Script = <<>> THEN MaxBlocks ELSE Len(Script))
+            /\ \E b \in (IF Script # <<>> THEN {Script[Len(stream) + 1]} ELSE IF stream = <<>> THEN Heads ELSE Alphabet) : stream' = Append(stream, b)
             /\ UNCHANGED <<conf, cut, img, full, ext, rd, phase, pred>>
 Start == /\ phase = "gen" /\ stream # <<>>
          /\ Script = <<>> \/ Len(stream) = Len(Script)
+         /\ (FullOnly /\ Script = <<>>) => Len(stream) = MaxBlocks
          /\ LET im == Image(stream)
                 x == Extents(stream)
-            IN \E c \in Cfgs, k \in CutsOf(x, Len(im)) :
+            IN \E c \in (IF RandomStart THEN {RandomElement(Cfgs)} ELSE Cfgs),
+                  k \in (IF RandomStart THEN {RandomElement(CutsOf(x, Len(im)))} ELSE CutsOf(x, Len(im))) :
                  /\ conf' = c /\ cut' = k /\ img' = SubSeq(im, 1, k) /\ full' = im /\ ext' = x
          /\ phase' = "open"
          /\ UNCHANGED <<stream, rd, pred>>
 \* one call of the reader; a = its result
 After(a) ==
-  LET evs == a.rd.evs \o (IF a.err = "" THEN <<>> ELSE <<EndEvent(a.err), MetaEvent(a.rd)>>)
+  \* NewNgReader returns no reader with an error: there is nothing to read the interface table off
+  LET evs == a.rd.evs \o (IF a.err = "" THEN <<>> ELSE <<EndEvent(a.err), MetaEvent(IF phase = "open" THEN NewRd ELSE a.rd)>>)
   IN /\ rd' = [a.rd EXCEPT !.evs = <<>>, !.tags = {}, !.alloc = 0, !.maxalloc = Max(@, a.rd.alloc)]
      /\ phase' = IF a.err = "" THEN "read" ELSE "done"
      /\ pred' = Append(pred, evs)
@@ -649,7 +654,13 @@ Verdicts == IF phase = "done" THEN C14Verdicts \o C15Verdicts ELSE <<>>
 (* what TLC checks *)
 ExpBlock(b) == IF "ts" \in DOMAIN b THEN [b EXCEPT !.ts = TsTab[b.ts]] ELSE b
 ExpStream == [i \in 1..Len(stream) |-> ExpBlock(stream[i])]
-Note(name) == PrintT("CEX " \o ToJson([cfg |-> conf, stream |-> ExpStream, cut |-> cut, verdicts |-> Verdicts, pred |-> pred, inv |-> name])) /\ FALSE
+ExportRecord(name) ==
+  [cfg |-> conf, stream |-> ExpStream, cut |-> cut, size |-> Len(full),
+   sum |-> (IF Len(full) <= 8192 THEN HashBytes(full) ELSE -1), ext |-> ext,
+   wf |-> JudgeApplies /\ full # <<>>, scen |-> (IF JudgeApplies /\ full # <<>> THEN Scn ELSE NoScenario),
+   pred |-> pred, verdicts |-> Verdicts, sig |-> rd.atags, inv |-> name]
+ExportLine(kind) == PrintT(kind \o ToJson(ExportRecord("")))
+Note(name) == PrintT("CEX " \o ToJson(ExportRecord(name))) /\ FALSE
 
 \* the design-level statement: what the code's algorithm returns satisfies C14 (where it applies) and C15
 ImplSatisfiesProp == Verdicts = <<>> \/ Note("ImplSatisfiesProp")
@@ -713,7 +724,8 @@ MatchesSource(e) ==
      /\ e.doff = ext[i][2] + (IF b.k = "spb" THEN 12 ELSE 28)
      /\ e.cm = [k \in 1..Len(cms) |-> OptVal("epb", cms[k], FALSE)]
      /\ (b.k = "epb" => e.oh = SrcOptHash(b))
-     /\ e.fl = (IF b.k = "epb" /\ Has(b.opts, 2) THEN OptOf(b.opts, 2).v ELSE -1)
+     \* NgEpbFlags keeps bits 0-9 and 16-31 of the flags word
+     /\ e.fl = (IF b.k = "epb" /\ Has(b.opts, 2) THEN LET v == OptOf(b.opts, 2).v IN v - ((v \div 1024) % 64) * 1024 ELSE -1)
 PacketsMatchSource ==
   ((Running /\ FramingIntact) =>
       /\ \A j \in 1..Len(LastEvents) : LastEvents[j].op = "pkt" => MatchesSource(LastEvents[j])
@@ -722,12 +734,7 @@ PacketsMatchSource ==
 
 \* behaviour export (model -> implementation)
 CfgCode == (IF conf.mixed THEN 1 ELSE 0) + (IF conf.errmis THEN 2 ELSE 0) + (IF conf.skipver THEN 4 ELSE 0) + (IF conf.zero THEN 8 ELSE 0)
-BehHash == (HashBytes(img) * 31 + cut * 7 + CfgCode) % ExportMod
-ExportLine(kind) ==
-  PrintT(kind \o ToJson([cfg |-> conf, stream |-> ExpStream, cut |-> cut, size |-> Len(full),
-                          sum |-> (IF Len(full) <= 8192 THEN HashBytes(full) ELSE -1), ext |-> ext,
-                          wf |-> JudgeApplies, scen |-> (IF JudgeApplies THEN Scn ELSE NoScenario),
-                          pred |-> pred, verdicts |-> Verdicts, sig |-> rd.atags]))
+BehHash == IF ExportMod = 1 THEN 0 ELSE (HashBytes(img) * 31 + cut * 7 + CfgCode) % ExportMod
 \* besides the hash-selected slice: every run that takes a decision of the code no exported run (of this TLC worker) has taken
 Export ==
   phase = "done" =>
